@@ -56,7 +56,10 @@ def setup_part(pid, tier, rng, res, dist, only=None):
     for _ in range(ncases):
         c = kgraph.gen_graph_case(rng, max_n=6)
         c["debug"] = []
-        c["tags"] = {}
+        c["call_tags"] = {}
+        # tags: a UNIQUE tag may stand for its node among the inputs / outputs; a tag carried by several nodes is
+        # ambiguous there and must be refused with ValueError, also inside a list of inputs
+        c["tags"] = {k_: v_ for k_, v_ in c["tags"].items() if isinstance(v_, str) and v_ in ("t0", "t1", "t2")}
         if not c["setup"]:
             roots = [j for j in range(c["n"]) if not any(b == j for a, b in c["edges"])]
             c["setup"] = roots[:1]
@@ -81,8 +84,32 @@ def setup_part(pid, tier, rng, res, dist, only=None):
         elif c["hist"] == "setup":
             tz.run_controlled(lambda: d.setup(), tz.Ctl(free_run=True))
         stored = {k: v for k, v in d.results.items() if k in d.exec_nodes and d.exec_nodes[k].setup}
+        carriers = collections.defaultdict(list)
+        for k_, t_ in c["tags"].items():
+            carriers[t_].append(int(k_))
+        amb = sorted(t_ for t_, l_ in carriers.items() if len(l_) >= 2)
+        if amb:
+            # an ambiguous tag among the inputs (as a bare alias and inside a list) / outputs
+            for form in ("bare", "list", "out"):
+                try:
+                    if form == "bare":
+                        d.compose("cmpx", amb[0], ["n%d" % i for i in c["outs"]])
+                    elif form == "list":
+                        d.compose("cmpx", [amb[0]], ["n%d" % i for i in c["outs"]])
+                    else:
+                        d.compose("cmpx", [], [amb[0]])
+                    res.hit("C19", "monitor", "compose accepted the tag %r, carried by nodes %s, as %s" % (amb[0], carriers[amb[0]], {"bare": "its input", "list": "an input inside a list", "out": "an output"}[form]), dict(base, kind="monitor", form=form))
+                except ValueError:
+                    pass
+                except BaseException as e:  # noqa: BLE001
+                    res.hit("C19", "monitor", "compose with the ambiguous tag %r raised %s: %s instead of ValueError" % (amb[0], type(e).__name__, str(e)[:100]), dict(base, kind="monitor", form=form))
+            dist["setup_ambiguous_tag"] += 1
+
+        def alias(i):
+            t_ = c["tags"].get(str(i))
+            return t_ if (t_ and len(carriers[t_]) == 1 and i % 2 == 0) else "n%d" % i
         try:
-            cd = d.compose("cmp", ["n%d" % i for i in c["ins"]], ["n%d" % i for i in c["outs"]])
+            cd = d.compose("cmp", [alias(i) for i in c["ins"]], [alias(i) for i in c["outs"]])
         except ValueError:
             dist["setup_compose_ValueError"] += 1
             continue
